@@ -163,12 +163,71 @@ theorem opp_states_equal_last_report (base a n : Nat) (new : List Bool) (cs : Li
 
 /-- FAST: after a `-L:`/`/L:` report for a configured switch its state is the reported one, all others are unchanged;
 frames that are skipped, ignored or unknown change nothing. -/
-theorem fast_state_is_last_report (s : FSw) (n : Nat) (h : n < s.table.length) :
+theorem fast_event_sets_one_switch (s : FSw) (n : Nat) (h : n < s.table.length) :
     (fastApply s (.closed n)).table[n]? = some true ∧ (fastApply s (.opened n)).table[n]? = some false ∧
     (∀ m, m ≠ n → (fastApply s (.closed n)).table[m]? = s.table[m]? ∧ (fastApply s (.opened n)).table[m]? = s.table[m]?) ∧
     fastApply s .skipped = s ∧ fastApply s .undecodable = s ∧ fastApply s .ignored = s ∧ fastApply s .noproc = s := by
   refine ⟨setAt_get _ _ _ h, setAt_get _ _ _ h, fun m hm => ⟨setAt_other _ _ _ _ hm, setAt_other _ _ _ _ hm⟩,
     rfl, rfl, rfl, rfl⟩
+
+/-- FAST, snapshots and events together: after *any* list of reports — `SA:` snapshots and `-L:`/`/L:` events in any
+order, including repeated identical snapshots and snapshots contradicting earlier events — the state of a configured
+switch `n` is what the LAST report that mentions it said: an event for `n` gives the reported logical state, a snapshot
+listing `n` gives `invert xor bit`; reports after it that are silent about `n` (events for other switches, snapshots too
+short to list `n`) do not matter, and neither does anything before it. -/
+theorem fast_state_is_last_report (s : PSw) (pre post : List SOp) (n : Nat) (cur : Bool)
+    (hn : s.logical[n]? = some cur) (hc : s.cfg[n]? = some true) (hpost : ∀ x ∈ post, Silent s n x) :
+    (∀ a, (swRun s (pre ++ .ev n a :: post)).logical[n]? = some a) ∧
+    (∀ bits i b, s.inv[n]? = some i → bits[n]? = some b →
+        (swRun s (pre ++ .snap bits :: post)).logical[n]? = some (i != b)) := by
+  constructor
+  · intro a
+    rw [(swRun_get _ s n).1, hn]
+    simp only [Option.map_some, List.foldl_append, List.foldl_cons]
+    rw [foldl_silent s n post hpost]
+    simp [sayAt, hc]
+  · intro bits i b hi hb
+    rw [(swRun_get _ s n).1, hn]
+    simp only [Option.map_some, List.foldl_append, List.foldl_cons]
+    rw [foldl_silent s n post hpost]
+    simp [sayAt, snapAt, hc, hi, hb]
+
+/-- which reports are silent about switch `n`: an event for another switch, a snapshot that does not list `n`, and every
+report when `n` is not a configured switch; a switch nobody mentions keeps its state. -/
+theorem fast_silent_reports (s : PSw) (n : Nat) :
+    (∀ m a, m ≠ n → Silent s n (.ev m a)) ∧ (∀ bits, bits[n]? = none → Silent s n (.snap bits)) ∧
+    (s.cfg[n]? ≠ some true → ∀ o, Silent s n o) ∧
+    (∀ ops, (∀ o ∈ ops, Silent s n o) → (swRun s ops).logical[n]? = s.logical[n]?) := by
+  refine ⟨?_, ?_, ?_, ?_⟩
+  · intro m a hm cur; simp [sayAt, hm]
+  · intro bits hb cur; simp only [sayAt, snapAt, hb]; split
+    · rename_i h; cases h
+    · rfl
+  · intro hc o cur
+    cases o with
+    | snap bits =>
+      simp only [sayAt, snapAt]
+      split
+      · rename_i h1 _ _; exact absurd h1 hc
+      · rfl
+    | ev m a => simp [sayAt, hc]
+  · intro ops h
+    rw [(swRun_get ops s n).1]
+    cases hl : s.logical[n]? with
+    | none => rfl
+    | some cur => simp [foldl_silent s n ops h]
+
+/-- `hw_switch_data` is the last snapshot, whatever events came before or after it. -/
+theorem fast_hw_is_last_snapshot (s : PSw) (pre post : List SOp) (bits : List Bool)
+    (h : ∀ o ∈ post, ∀ b, o ≠ .snap b) : (swRun s (pre ++ .snap bits :: post)).hw = bits :=
+  swRun_hw_last pre post bits s h
+
+/-- non-vacuity: NO switch 1 and NC switch 2; an event, a contradicting snapshot, the same snapshot again, an event -/
+example : (swRun { cfg := [false, true, true], inv := [false, false, true], logical := [false, false, false] }
+    [.ev 1 true, .snap [true, false, false], .snap [true, false, false], .ev 2 false, .ev 0 true]).logical
+    = [false, false, false] ∧
+    (swRun { cfg := [false, true, true], inv := [false, false, true], logical := [false, false, false] }
+    [.ev 1 true, .snap [true, false, false]]).logical = [false, false, true] := by decide
 
 /-- A well-framed but malformed FAST frame (`-L:G1`) is skipped; the frames around it are decoded (after the D22 fix). -/
 example : (fastFrames { table := List.replicate 16 false } (feed (delimStep CR) []
